@@ -18,7 +18,8 @@ import time
 
 VERIF = os.path.dirname(os.path.dirname(os.path.abspath(__file__)))
 REPO = "/repo"
-SEEDED = os.path.join(VERIF, "seeded")
+SEEDED = os.path.join(VERIF, os.environ.get("EVAL_DIR", "seeded"))   # EVAL_DIR=benign: the property-preserving changes (expected: every check silent)
+ALL = ["C%02d" % i for i in range(1, 19)]
 RELATED = {
     "C01": ["C01", "C16", "C06"], "C02": ["C02"], "C03": ["C03", "C02"], "C04": ["C04"], "C05": ["C05"], "C06": ["C06"], "C07": ["C07"],
     "C08": ["C08"], "C09": ["C09"], "C10": ["C10"], "C11": ["C11"], "C12": ["C12"], "C13": ["C13", "C15"], "C14": ["C14", "C15"],
@@ -40,7 +41,7 @@ def eval_one(sid, repo, tier, seed, extra_env):
         return sid, dict(error="patch does not apply: %s" % a.stderr.strip()[:200]), None
     try:
         row = {}
-        for chk in RELATED.get(prop, [prop]):
+        for chk in (ALL if os.environ.get("EVAL_CHECKS") == "all" else RELATED.get(prop, [prop])):
             t0 = time.time()
             r = sh("./check %s --tier %s" % (chk, tier), cwd=VERIF, env=dict(os.environ, VERIF_SEED=seed, **extra_env))
             sigs = re.findall(r"violation signatures: (\{.*\})", r.stdout)
@@ -49,7 +50,7 @@ def eval_one(sid, repo, tier, seed, extra_env):
             first = re.search(r"^  signature=(.*)$", r.stdout, re.M)
             if first:
                 row[chk]["first"] = first.group(1)[:400]
-        res = dict(tier=tier, seed=int(seed), checks=row, detected=any(v["rc"] == 1 for v in row.values()),
+        res = dict(tier=tier, seed=int(seed), checks=row, detected=any(v["rc"] == 1 for v in row.values()), inconclusive=sorted(k for k, v in row.items() if v["rc"] not in (0, 1)),
                    detected_by_own_check=row.get(prop, {}).get("rc") == 1, repo=repo)
         meta["detected_by"] = sorted(k for k, v in row.items() if v["rc"] == 1)
         meta["evaluation"] = dict(tier=tier, seed=int(seed), ran="git -C %s apply seeded/%s/patch.diff; ./check <id> --tier %s; git -C %s checkout -- ." % (repo, sid, tier, repo),
@@ -75,7 +76,8 @@ def main_parallel(ids, n, tier, seed):
             print("cannot create worktree: %s" % r.stderr)
             return 2
         slots.put((wt, dict(ZERV_VERIF_REPO=wt, ZERV_VERIF_CACHE=os.path.join(base, "c%d" % i), ZERV_VERIF_EVIDENCE=os.path.join(base, "e%d" % i))))
-    res_path = os.path.join(SEEDED, "RESULTS.json")
+    res_path = os.environ.get("EVAL_OUT") or os.path.join(SEEDED, "RESULTS.json")   # EVAL_OUT: side run (other seed/tier), meta.json untouched
+    side = bool(os.environ.get("EVAL_OUT"))
     results = json.load(open(res_path)) if os.path.exists(res_path) else {}
 
     def job(sid):
@@ -88,7 +90,7 @@ def main_parallel(ids, n, tier, seed):
         with concurrent.futures.ThreadPoolExecutor(n) as ex:
             for sid, res, meta in ex.map(job, ids):
                 results[sid] = res
-                if meta is not None:
+                if meta is not None and not side:
                     json.dump(meta, open(os.path.join(SEEDED, sid, "meta.json"), "w"), indent=1, ensure_ascii=False)
                 print("%s  %s" % (sid, {k: (v["rc"], v["signatures"]) for k, v in res.get("checks", {}).items()} or res))
                 sys.stdout.flush()
